@@ -22,8 +22,11 @@ MCTypeOptSet(k) ==
 MCVarOptSet(c) ==
   { [DefVariant EXCEPT !.style = s] :
       s \in IF c.kind = "struct" THEN Styles ELSE Styles }
-MCFieldSet(c) == { [DefField EXCEPT !.eq = t] : t \in Treatments }
-MCAdmissible(c) == TRUE
+CONSTANT Narrow   \* TRUE: at most one variant wider than two fields (quick instance); FALSE: no such restriction
+MCFieldSet(c) ==
+  IF NVariants(c) > 0 /\ Narrow /\ ~MayWiden(c) THEN {}
+  ELSE { [DefField EXCEPT !.eq = t] : t \in Treatments }
+MCAdmissible(c) == Narrow => WideOK(c)
 
 \* State-space reductions for the design-level run (the implementation corpus is
 \* not reduced).  (1) Which attribute name carried the parameters is an
